@@ -633,7 +633,7 @@ CatchInProtocol ==                              \* except FileNotFound / except 
             /\ IF UsesStrerror(proto) \/ exc.nargs >= 2 \/ "ArgsIndex" \notin Defects
                THEN /\ todo' = ErrorPlan(fam, m, IF exc.nargs >= 2 \/ ~UsesStrerror(proto) THEN exc.msg ELSE "None", TRUE)
                     /\ kind' = "error" /\ pc' = "write" /\ exc' = NoExc
-                    /\ SetSite(IF ~UsesStrerror(proto) /\ exc.nargs < 2 THEN "ArgsIndex" ELSE "none")
+                    /\ SetSite(IF ~UsesStrerror(proto) /\ exc.nargs < 2 THEN "ArgsIndex" ELSE ErrSite(fam, m, exc.msg))
                ELSE \* e.args[1] of a one-argument error: IndexError raised inside the except block
                     /\ exc' = Exc("IndexError", "other", 1, "tuple index out of range") /\ pc' = "catchS"
                     /\ SetSite("ArgsIndex") /\ UNCHANGED <<todo, kind>>
